@@ -1404,6 +1404,10 @@ func (w *World) paramAlwaysFresh(p *ssa.Parameter, depth int) (bool, string) {
 		if site == nil {
 			return false, ""
 		}
+		// a method wrapper go/ssa synthesised that nothing calls passes nothing
+		if cf := e.Caller.Func; cf != nil && cf.Synthetic != "" && len(e.Caller.In) == 0 {
+			continue
+		}
 		args := site.Common().Args
 		off := 0
 		if site.Common().IsInvoke() {
@@ -1414,10 +1418,19 @@ func (w *World) paramAlwaysFresh(p *ssa.Parameter, depth int) (bool, string) {
 		}
 		roots := addrRoots(args[idx-off])
 		// a captured variable: what the enclosing function bound to it
-		for i := 0; i < len(roots); i++ {
+		for i := 0; i < len(roots) && len(roots) < 64; i++ {
 			if fv, ok := roots[i].(*ssa.FreeVar); ok {
 				if b := bindingOf(fv); b != nil {
 					roots = append(roots[:i:i], append(addrRoots(b), roots[i+1:]...)...)
+					i--
+				} else if bs := w.boundBindings(fv); len(bs) > 0 {
+					// the receiver bound into a method value (w.next handed around
+					// as a func value): wherever such a value is made
+					var rs []ssa.Value
+					for _, b := range bs {
+						rs = append(rs, addrRoots(b)...)
+					}
+					roots = append(roots[:i:i], append(rs, roots[i+1:]...)...)
 					i--
 				}
 			}
@@ -1426,6 +1439,9 @@ func (w *World) paramAlwaysFresh(p *ssa.Parameter, depth int) (bool, string) {
 			switch x := root.(type) {
 			case *ssa.MakeMap, *ssa.MakeSlice, *ssa.Const:
 			case *ssa.Alloc:
+				if w.RunTime[x.Parent()] {
+					continue // made during the evaluation (also when it reaches the call through a bound-method value)
+				}
 				if x.Parent() != site.Parent() && !w.sameTree(x.Parent(), site.Parent()) {
 					return false, ""
 				}
@@ -1450,6 +1466,9 @@ func (w *World) paramAlwaysFresh(p *ssa.Parameter, depth int) (bool, string) {
 		}
 		n++
 	}
+	if n == 0 {
+		return false, ""
+	}
 	return true, fmt.Sprintf("at all %d call sites the argument is an object made by the caller for this evaluation", n)
 }
 
@@ -1469,4 +1488,22 @@ func (w *World) ownedReceiver(t types.Type) bool {
 		return true
 	}
 	return false
+}
+
+// boundBindings: fv is the receiver slot of a bound-method wrapper; the values
+// bound to it at every place the package makes that method value.
+func (w *World) boundBindings(fv *ssa.FreeVar) []ssa.Value {
+	fn := fv.Parent()
+	if fn == nil || fn.Parent() != nil || !strings.HasPrefix(fn.Synthetic, "bound method wrapper") {
+		return nil
+	}
+	var out []ssa.Value
+	for _, f := range w.AllFuncs {
+		eachInstr(f, false, func(_ *ssa.Function, in ssa.Instruction) {
+			if mc, ok := in.(*ssa.MakeClosure); ok && mc.Fn == ssa.Value(fn) && len(mc.Bindings) == 1 {
+				out = append(out, mc.Bindings[0])
+			}
+		})
+	}
+	return out
 }
